@@ -100,7 +100,7 @@ fn member_names(v: &Value, out: &mut Vec<String>) {
 }
 
 fn plain(base: Base, fmt: Fmt) -> Case {
-    Case { base, faults: vec![], wire: vec![], fmt, session: None, resolver: Resolver::Directory, kb_enc: KbEnc::Absent, extra: vec![], expand: None, hold_s: 0, escapes: false, extra_raw: None, member_order: None }
+    Case { base, faults: vec![], wire: vec![], fmt, session: None, resolver: Resolver::Directory, kb_enc: KbEnc::Absent, extra: vec![], expand: None, hold_s: 0, escapes: false, extra_raw: None, member_order: None, mirror: None, general: None }
 }
 
 fn rand_char(rng: &mut Rng) -> char {
@@ -120,19 +120,27 @@ fn rand_char_op(rng: &mut Rng) -> CharOp {
 
 pub fn c03_fault(rng: &mut Rng, names: &[String], foreign_tok: usize) -> Fault {
     let idx = rng.usize(24);
-    match rng.usize(16) {
+    match rng.usize(17) {
+        16 => match rng.usize(8) {
+            0 => Fault::FloodDisclosures { n: *rng.pick(&[130usize, 300, 1100, 4100, 5000]), at: rng.usize(24) },
+            1 | 2 | 3 => Fault::MergeDisclosures { i: idx },
+            4 | 5 => Fault::DisclosuresIntoKbSlot { n: rng.usize(3) },
+            _ => Fault::Reserialize { i: idx, mode: Reser::TrailingData(rng.usize(8) as u8) },
+        },
         0 => Fault::DropDisclosure(idx),
         1 => Fault::DupDisclosure { i: idx, at: rng.usize(24) },
         2 => Fault::SwapDisclosures(idx, rng.usize(24)),
         3 => Fault::ReverseDisclosures,
         4 => Fault::RotateDisclosures(1 + rng.usize(7)),
         5 | 6 => Fault::CorruptChar { part: Part::Disc(idx), pos: rng.usize(400), op: rand_char_op(rng) },
-        7 | 8 => Fault::Reserialize {
+        7 | 8 => {
+            let td = rng.usize(8) as u8;
+            Fault::Reserialize {
             i: idx,
             mode: rng
-                .pick(&[Reser::Whitespace, Reser::Escapes, Reser::Padding, Reser::TrailingBits, Reser::ChangeSalt, Reser::ChangeName, Reser::ChangeValue])
+                .pick(&[Reser::Whitespace, Reser::Escapes, Reser::Padding, Reser::TrailingBits, Reser::ChangeSalt, Reser::ChangeName, Reser::ChangeValue, Reser::TrailingData(td)])
                 .clone(),
-        },
+        }},
         9 => Fault::Truncate { part: Part::Disc(idx), len: rng.usize(200) },
         10 | 11 | 12 => {
             let mut pool: Vec<String> = vec!["iss".into(), "exp".into(), "cnf".into(), "iat".into(), "_sd_alg".into(), "sub".into(), "admin".into(), "new_claim".into()];
@@ -389,6 +397,19 @@ pub fn gen_c02(rng: &mut Rng, tier: Tier) -> MsgScn {
         }
     }
     let main = if rng.bool() { Base::Pres(0) } else { Base::Cred(0) };
+    // the JSON envelope in JWS General JSON Serialization: one signature (the same triple), none
+    // (nothing vouches for the payload), none + a payload of the attacker's making
+    for n in [0u8, 1, 0] {
+        let mut c = plain(main.clone(), Fmt::Json);
+        c.general = Some(n);
+        if rng.bool() {
+            c.faults.push(Fault::ReencodePayload(PayloadEdit::SetClaim("admin".into(), json!(true))));
+        }
+        if rng.chance(1, 3) {
+            c.mirror = Some(rng.pick(&["header", "unprotected"]).to_string());
+        }
+        cases.push(c);
+    }
     // enumerated single-character faults
     let (hs, ps) = match tier {
         Tier::Quick => (Some(16), Some(48)),
@@ -427,7 +448,12 @@ pub fn gen_c02(rng: &mut Rng, tier: Tier) -> MsgScn {
                 Fault::ReencodePayload(e)
             }
             7 | 8 | 9 => {
-                let m = match rng.usize(9) {
+                let m = match rng.usize(10) {
+                    9 => AlgMode::ResignBigHeader {
+                        kid: if rng.chance(2, 3) && !iss[0].key.starts_with("hs") { iss[0].key.clone() } else { rng.pick(&["ecD", "edC", "ecB", "edA"]).to_string() },
+                        bytes: *rng.pick(&[200usize, 1000, 2100, 4200, 9000, 40_000, 70_000]),
+                        param: rng.usize(3) as u8,
+                    },
                     0 => AlgMode::None,
                     1 => AlgMode::NoneUpper,
                     2 => AlgMode::Absent,
@@ -455,6 +481,7 @@ pub fn gen_c02(rng: &mut Rng, tier: Tier) -> MsgScn {
                 }
                 Fault::RotateDisclosures(0) // no-op placeholder; the fault is the resolver
             }
+            12 if rng.bool() => Fault::SigReencode(*rng.pick(&[crate::faults::SigEnc::Der, crate::faults::SigEnc::DerPadded, crate::faults::SigEnc::ZeroPadded, crate::faults::SigEnc::StdBase64])),
             12 => Fault::CorruptChar { part: *rng.pick(&[Part::H, Part::P, Part::S]), pos: rng.usize(2000), op: rand_char_op(rng) },
             _ => Fault::Truncate { part: *rng.pick(&[Part::H, Part::P]), len: rng.usize(300) },
         };
@@ -469,6 +496,27 @@ pub fn gen_c02(rng: &mut Rng, tier: Tier) -> MsgScn {
 
 // ---------------------------------------------------------------------------------------------
 // C04
+
+/// A string an over-helpful comparison might take for `s`: scheme or prefix stripped or added,
+/// other letter case, a trailing slash more or less, surrounding blanks, a proper prefix.
+pub fn near_miss(rng: &mut Rng, s: &str) -> String {
+    let v = match rng.usize(9) {
+        0 => s.split_once(':').map(|(_, r)| r.to_string()).unwrap_or_else(|| format!("x509_san_dns:{}", s)),
+        1 => s.strip_prefix("https://").map(str::to_string).unwrap_or_else(|| format!("https://{}", s)),
+        2 => s.to_uppercase(),
+        3 => s.to_lowercase(),
+        4 => s.strip_suffix('/').map(str::to_string).unwrap_or_else(|| format!("{}/", s)),
+        5 => format!(" {}", s),
+        6 => format!("{} ", s),
+        7 => s.chars().take(s.chars().count().saturating_sub(1)).collect(),
+        _ => format!("{}:{}", rng.pick(&["redirect_uri", "x509_san_dns", "did", "openid_federation"]), s),
+    };
+    if v == s {
+        format!("{}~", s)
+    } else {
+        v
+    }
+}
 
 pub fn gen_c04(rng: &mut Rng, tier: Tier) -> MsgScn {
     let iss = issuers(rng, 2);
@@ -575,12 +623,13 @@ pub fn gen_c04(rng: &mut Rng, tier: Tier) -> MsgScn {
                     Some(match field {
                         KbField::Typ => json!(rng.pick(&["JWT", "kb-jwt", "KB+JWT", "sd+jwt", "", "application/kb+jwt", "kb+jwt ", " kb+jwt", "kb+jwt;v=1", "kb+JWT"]).to_string()),
                         KbField::Nonce => {
-                            if rng.bool() {
-                                json!(format!("{}x", s1.1))
-                            } else {
-                                json!(7)
+                            match rng.usize(3) {
+                                0 => json!(format!("{}x", s1.1)),
+                                1 => json!(near_miss(rng, &s1.1)),
+                                _ => json!(7),
                             }
                         }
+                        KbField::Aud if rng.bool() => json!(near_miss(rng, &s1.0)),
                         KbField::Aud => rng.pick(&[json!(format!("{}x", s1.0)), json!(["other"]), json!([]), json!(null), json!({}), json!(""), json!(0), json!([[]])]).clone(),
                         KbField::SdHash => {
                             if rng.bool() {
@@ -592,7 +641,17 @@ pub fn gen_c04(rng: &mut Rng, tier: Tier) -> MsgScn {
                         KbField::Iat => rng.pick(&[json!("yesterday"), json!(u64::MAX), json!(9223372036854775808u64), json!(-1), json!(1e30), json!(0), json!(null), json!([1]), json!(1.5)]).clone(),
                     })
                 };
-                c.faults.push(Fault::KbFieldEdit { key: hk0.clone(), alg: alg_of(&hk0), aud: s1.0.clone(), nonce: s1.1.clone(), field, value });
+                // sometimes two or three deviations at once (e.g. neither typ nor sd_hash: the
+                // shape of a pre-draft-05 "holder binding" JWT)
+                let mut also = Vec::new();
+                if rng.chance(1, 3) {
+                    for f in [KbField::Typ, KbField::SdHash, KbField::Iat, KbField::Nonce] {
+                        if f != field && rng.chance(1, 2) {
+                            also.push((f, None));
+                        }
+                    }
+                }
+                c.faults.push(Fault::KbFieldEdit { key: hk0.clone(), alg: alg_of(&hk0), aud: s1.0.clone(), nonce: s1.1.clone(), field, value, also });
             }
             10 => c.faults.push(Fault::DropDisclosure(rng.usize(24))),
             11 => c.faults.push(Fault::DupDisclosure { i: rng.usize(24), at: rng.usize(24) }),
@@ -682,10 +741,15 @@ pub fn gen_c10(rng: &mut Rng, tier: Tier) -> MsgScn {
             }
             _ => {}
         }
-        // JSON-envelope variants
+        // JSON-envelope variants (JWS General JSON Serialization is not one of the two SD-JWT
+        // serializations this property relates: C02's cases lose that attribute here)
+        c.general = None;
         c.escapes = rng.chance(1, 4);
         if rng.chance(1, 4) {
             c.member_order = Some(rng.next_u64());
+        }
+        if rng.chance(1, 5) {
+            c.mirror = Some(rng.pick(&["header", "unprotected", "signatures", "sd_jwt", "presentation", "jwt"]).to_string());
         }
         if rng.chance(1, 8) {
             c.extra_raw = Some(rng.pick(&["1e999", "-1e999", "\"\\ud83d\"", "\"\\udc00x\"", "123456789012345678901234567890", "[[[[[[[[[[[[[[[[[[[[[[[[[[[[[[[[[[[[[[[[[[[[[[[[[[[[[[[[[[[[[[[[[[[[[[[[[[[[[[[[[[[[[[[[[[[[[[[[[[[[[[[[[[[[[[[[[[[[[[[[[[[[[[[[[[[[[[[[[[[[[[[[[[1]]]]]]]]]]]]]]]]]]]]]]]]]]]]]]]]]]]]]]]]]]]]]]]]]]]]]]]]]]]]]]]]]]]]]]]]]]]]]]]]]]]]]]]]]]]]]]]]]]]]]]]]]]]]]]]]]]]]]]]]]]]]]]]]]]]]]]]]]]]]]]]]]]", "{\"a\":{\"a\":1,\"a\":2}}", "0.000000000000000000000000000000000000000000000000000000000000000000000000000000000000000000000000000000000000000000000000000000000000000001e-400"]).to_string());
